@@ -23,4 +23,8 @@ def handle : List Sx → Sx
       | .literal _ => Sx.bad
     | _, _ => Sx.bad
   | _ => Sx.bad
+/-- request names served by this module (collected into `JinjaV.Wire.All` by tools/gen_wire_all.py) -/
+def handlers : List (String × (List Sx → Sx)) :=
+  [("native", handle)]
+
 end JinjaV.Wire.Native
